@@ -19,7 +19,7 @@ import ast
 import copy
 from fractions import Fraction
 
-from vh.translate import TranslateError, _class, _func, _parse, coq_string
+from vh.translate import TranslateError, _class, _func, _parse, coq_string, normalise_source
 
 CAT = 'katdal/categorical.py'
 SD = 'katdal/sensordata.py'
@@ -176,7 +176,7 @@ class Skeleton:
     def finish(self, expected):
         self.fn.decorator_list = []
         got = _txt(self.fn).strip()
-        exp = ast.unparse(ast.parse(expected.strip())).strip()   # same normal form, whatever the Python version
+        exp = normalise_source(expected.strip()).strip()   # same normal form as the parsed katdal files, whatever the Python version
         if got != exp:
             g, e = got.split('\n'), exp.split('\n')
             for n in range(max(len(g), len(e))):
